@@ -19,6 +19,6 @@ CONSTANTS
   AllocV = {1, 2}
   MaxOps = 3
   Deviations = {}
-INVARIANTS Refines RYW Alias
+INVARIANTS Refines RYW Alias FreshCells
 PROPERTIES Frame
 CHECK_DEADLOCK FALSE
